@@ -500,20 +500,29 @@ struct verif_ins_t {
 	_Bool	p_is_left;	/* where p hangs from the root (depth 2) */
 	_Bool	go_left;	/* side of p the new node goes to */
 	_Bool	p_has_other;	/* p's other child exists (a leaf: p was balanced with an empty side) */
-	int8_t	c1, c2, c3;	/* comparator verdicts along the search */
+	int8_t	c1, c2;		/* magnitudes of the comparator verdicts along the search */
+	uint8_t	dup;		/* 0: the key is absent; k: the k-th node on the search path compares equal */
 };
 static struct verif_ins_t	v_ins;
 static struct iv_avl_node	i_root, i_p, i_other, i_new, i_rsib;
 static int			g_cmp_calls, g_rp_calls;
 
+/* the comparator contract is only "negative, zero or positive": any magnitude */
+static int ins_verdict(int left, int mag)
+{
+	return left ? -mag : mag;
+}
 static int ins_compare(const struct iv_avl_node *a, const struct iv_avl_node *b)
 {
 	g_cmp_calls++;
 	__CPROVER_assert(a == &i_new, "[C16] the search compares the new node against nodes of the tree");
+	__CPROVER_assert(v_ins.dup == 0 || g_cmp_calls <= v_ins.dup, "[C16] the search stops at a node that compares equal: nothing below it is looked at");
+	if (v_ins.dup && g_cmp_calls == v_ins.dup)
+		return 0;
 	if (v_ins.depth == 2 && b == &i_root)
-		return v_ins.p_is_left ? -1 : 1;
+		return ins_verdict(v_ins.p_is_left, v_ins.c1);
 	__CPROVER_assert(b == &i_p, "[C16] the search follows child links from the root");
-	return v_ins.go_left ? -1 : 1;
+	return ins_verdict(v_ins.go_left, v_ins.c2);
 }
 
 void verif_rebalance_path_pre(struct iv_avl_tree *tree, struct iv_avl_node *an)
@@ -543,6 +552,8 @@ void h_insert_base(void)
 
 	v_ins = nd;
 	__CPROVER_assume(v_ins.depth <= 2);
+	__CPROVER_assume(v_ins.c1 >= 1 && v_ins.c2 >= 1);
+	__CPROVER_assume(v_ins.dup <= v_ins.depth);
 	v_ptree.compare = ins_compare;
 	g_cmp_calls = g_rp_calls = 0;
 	/* stale link fields: the node may have been in a tree before */
@@ -568,7 +579,18 @@ void h_insert_base(void)
 
 	r = iv_avl_tree_insert(&v_ptree, &i_new);
 
-	__CPROVER_assert(r == 0, "[C16] inserting a key that compares unequal to every node on the search path succeeds");
+	if (v_ins.dup) {
+		__CPROVER_assert(r == -1 && g_rp_calls == 0 && g_cmp_calls == v_ins.dup, "[C16] a key that compares equal to a node on the search path -- an inner node with children included -- is refused at that node");
+		__CPROVER_assert(i_new.left == &i_rsib && i_new.right == &i_rsib && i_new.parent == &i_rsib && i_new.height == 9, "[C16] a refused node is not touched");
+		__CPROVER_assert(i_p.height == (v_ins.p_has_other ? 2 : 1) && (v_ins.go_left ? i_p.left : i_p.right) == NULL &&
+				 (v_ins.go_left ? i_p.right : i_p.left) == (v_ins.p_has_other ? &i_other : NULL) &&
+				 v_ptree.root == (v_ins.depth == 2 ? &i_root : &i_p) &&
+				 IMPLIES(v_ins.depth == 2, (v_ins.p_is_left ? i_root.left : i_root.right) == &i_p && (v_ins.p_is_left ? i_root.right : i_root.left) == &i_rsib && i_root.height == 3),
+				 "[C16] a refused insert changes nothing in the tree");
+		CANARY();
+		return;
+	}
+	__CPROVER_assert(r == 0, "[C16] inserting a key that compares unequal (by any negative or positive amount) to every node on the search path succeeds");
 	__CPROVER_assert(g_rp_calls == 1 && g_cmp_calls == v_ins.depth, "[C16] one comparison per level, then one rebalancing walk");
 	CANARY();
 }
